@@ -101,6 +101,16 @@ def run(ctx):
         gas_pool = rng.choice([[0], [1, 100], [1000, 5000], [10000, 100000], [1040000 // max(k, 1)], [3, 1040000 // max(k, 1)]])
         how = rng.choice(['fill', 'autofill'])
         judge(ctx, rng, curve, contents, how, lambda c: rng.choice(gas_pool))
+    # large batches with gas consumptions that are not round numbers: per-content rounding losses add up with the batch size
+    for j in range(ctx.pick(24, 400) // ctx.nshards + 1):
+        curve = [b'ed', b'sp', b'p2', b'BL'][j % 4]
+        k = rng.choice([10, 12, 16, 20, 25, 33, 40, 64, 97])
+        kinds = rng.choice([['transaction'], ['transaction', 'delegation'], KINDS])
+        contents = [blank(GO.content(rng, rng.choice(kinds))) for _ in range(k)]
+        odd = [rng.choice([1, 3, 7, 9]) + 10 * rng.randrange(10, 2000) for _ in range(5)]
+        ctx.count('large_batches')
+        judge(ctx, rng, curve, contents, rng.choice(['autofill', 'autofill', 'fill']), lambda c: rng.choice(odd))
+    ctx.require('large_batches', 5)
     ctx.require('groups', 100)
     ctx.require('fee_inequalities_evaluated', 100)
     ctx.require('how_fill', 20)
